@@ -143,4 +143,94 @@ class C18(WireCheck):
     CORPUS = FUZZIN
 
 
-CHECKS = {"C19": C19, "C02": C02, "C03": C03, "C04": C04, "C18": C18}
+
+SIM_ASSUME = ["virtual sockets through the public ares_set_socket_functions_ex(), virtual clock (hook H1), seeded RNG (hook H2), constant hash seed (hook H3)",
+              "virtual servers decode with refdns and answer from a hash of (seed, server, question, n-th transmission); a case depends only on its scenario text",
+              "library built without threads so ares_reinit() is synchronous; ASan+UBSan on; allocation ledger is the per-case leak oracle"]
+
+
+def sim_fuzz_job(pid, prop, seed, runs, idx=0, max_len=600):
+    cdir = os.path.join(_build.BUILD, "out", pid, "corpus-sim-%s-%d" % (prop, idx))
+    shutil.rmtree(cdir, ignore_errors=True)
+    os.makedirs(cdir, exist_ok=True)
+    args = ["-runs=%d" % runs, "-seed=%d" % seed, "-max_len=%d" % max_len, "-entropic=0", "-timeout=60", "-rss_limit_mb=4096",
+            "-print_final_stats=1", "-artifact_prefix=" + cdir + "/art-", cdir]
+    return ("sim_fuzz", args, {"SIM_PROP": prop}, None)
+
+
+class SimCheck(Check):
+    harnesses = ["sim_rc", "sim_replay", "sim_fuzz"]
+    replay_binary = "sim_replay"
+    assumptions = SIM_ASSUME
+    WORKERS_Q = 14
+    CASES_Q = 4000
+    FUZZ_Q = 8000
+    WORKERS_T = 14
+    CASES_T = 250000
+    FUZZ_T = 1500000
+    SIZE = 100
+
+    def jobs(self, tier, seed, excludes):
+        jobs = []
+        quick = tier == "quick"
+        for w in range(self.WORKERS_Q if quick else self.WORKERS_T):
+            jobs.append(("sim_rc", [self.pid], {}, rc_params(seed * 1000 + w, self.CASES_Q if quick else self.CASES_T, self.SIZE if w % 3 else 200, noshrink=True)))   # scenarios are minimised by ddmin over lines in the driver
+        nf = 2
+        os.makedirs(os.path.join(_build.BUILD, "out", self.pid), exist_ok=True)
+        for i in range(nf):
+            jobs.append(sim_fuzz_job(self.pid, self.pid, seed * 1000 + 900 + i, self.FUZZ_Q if quick else self.FUZZ_T, i))
+        return jobs
+
+
+class C01(SimCheck):
+    pid = "C01"
+    rule = ("scenarios of 1-8 requests over all ten entry points (send/query/search dnsrec and legacy byte forms, getaddrinfo, gethostbyname, gethostbyaddr, getnameinfo), names incl. escaped "
+            "hostname characters and boundary lengths, 1-3 servers, all reply kinds, callback scripts that start requests and/or call ares_cancel, cancel/reinit/setservers lines, socket faults, "
+            "arbitrary step/advance interleavings, then drain and ares_destroy; oracle: per-request callback count exactly 1 (never 2 at any instant, none after destroy), ECANCELLED/EDESTRUCTION "
+            "for requests pending at cancel/destroy, every result fully read under ASan, allocation ledger empty. non-trivial = >= 2 requests and a callback that starts a request or cancels, "
+            "a socket fault, a timeout, or a search with >= 2 candidates; distinct = distinct scenario text")
+    required_counters = ["c01.cb_starts_request", "c01.cb_cancels", "sim.with_socket_faults", "sim.with_timeouts", "sim.search_2plus_candidates", "sim.with_cancel"]
+
+
+class C05(SimCheck):
+    pid = "C05"
+    rule = ("request histories with an adversary: for a live request a packet is fabricated that differs from the genuine reply in exactly one of qid, name, type, class, letter case (0x20 on), "
+            "source address, socket, cookie presence / client part, or is a late reply to a transmission since re-sent on another socket; every record handed to a callback carries a provenance "
+            "serial (in the address bits / TXT / PTR name / SOA serial) that must be registered genuine and belong to that request's question. "
+            "non-trivial = at least one forged or stale packet was actually delivered to an open socket; distinct = distinct scenario text")
+    required_counters = ["c05.injected"]
+    nontrivial_floor = {"quick": 50, "thorough": 200}
+
+
+class C06(SimCheck):
+    pid = "C06"
+    rule = ("1-3 single-question requests, 1-3 servers, per-attempt outcomes from the full table, tries 1..100 (64, 65, 70, 100 on purpose), timeout 1..100000 ms, maxtimeout, rotate, udpmax, "
+            "server-list edits and socket faults; oracle: transmissions per wire query (same id) <= servers*tries + 5 (+1 per server for probes), drain ends with a status within a step budget of "
+            "virtual time, attempts that ended by timeout (silent server, nothing else delivered) waited >= the base timeout clamp(configured or 250 ms once the server has history, 250, cap), "
+            "ares_timeout() never exceeds maxtimeout, UBSan silent. non-trivial = at least one wire query was retried; distinct = distinct scenario text")
+    required_counters = ["c06.retried_queries", "c06.timeout_waits_checked", "c06.round2plus"]
+
+
+class C07(SimCheck):
+    pid = "C07"
+    rule = ("(a) simulator: after every step and before every drain advance ares_timeout() is checked with five caller maxima (non-negative, normalised, <= max); the hint h is tested by "
+            "counterfactual execution: a forked child advances the virtual clock by h-1us and processes with no descriptor (any transmission, completion or server failure there means a deadline "
+            "lay before the hint), the parent advances by exactly h (nothing happening and a next hint of 0 means the hint was not live); up to 6 such checks per scenario. "
+            "non-trivial = a counterfactual check ran with >= 2 outstanding requests; distinct = distinct scenario text. (b) event-thread part: see C07 note in DESIGN (threads harness)")
+    required_counters = ["c07.counterfactual_checks", "c07.checks_with_2plus_deadlines"]
+    CASES_Q = 1500
+    FUZZ_Q = 2000
+    CASES_T = 60000
+    FUZZ_T = 300000
+
+
+class C10(SimCheck):
+    pid = "C10"
+    rule = ("C01/C06-style histories with UDP, TCP, fast-open on/off, udp_max_queries 1..5, STAYOPEN, pending-write callback, ares_process_fds / ares_process_fd / legacy ares_fds+ares_process, stale "
+            "events for closed descriptors, and faults at asocket/asetsockopt/aconnect/agetsockname/asendto/arecvfrom; oracle over the virtual socket call log (descriptors never reused): every "
+            "descriptor closed exactly once and none open after ares_destroy, no call or notification on a closed/unknown descriptor, <= udp_max_queries datagrams per UDP descriptor, exactly one "
+            "final (0,0) socket-state notification iff a watch was announced. non-trivial = >= 2 sockets opened; distinct = distinct scenario text")
+    required_counters = ["c10.sockets_opened", "sim.with_socket_faults", "sim.tcp_transmissions"]
+
+
+CHECKS = {"C19": C19, "C02": C02, "C03": C03, "C04": C04, "C18": C18, "C01": C01, "C05": C05, "C06": C06, "C07": C07, "C10": C10}
